@@ -135,7 +135,9 @@ def live(chk, wd, binary, gen):
     if rc != 0 or not res or not res[-1].get("summary"):
         raise vlib.Inconclusive("C10 live harness failed (in flight %s): %s" % (inflight, txt[-2500:]))
     summ = res[-1]
-    if summ["cases"] != len(scens) or summ["lab"] > max(2, len(scens) // 20) or summ["decrypted"] < 8 * (len(scens) - summ["lab"]):
+    nviol = sum(1 for r in res[:-1] if r.get("viol"))
+    if summ["cases"] != len(scens) or summ["lab"] > max(2, len(scens) // 20) or \
+            (nviol == 0 and summ["decrypted"] < 8 * (len(scens) - summ["lab"])):
         raise vlib.Inconclusive("C10 live run incomplete: %s %s" % (summ, [r.get("lab") for r in res[:-1] if r.get("lab")][:2]))
     for r in res[:-1]:
         for w in (r.get("viol") or [])[:3]:
@@ -161,8 +163,13 @@ def run(chk):
             vlib.tlc_expect_violation(GEN, "%s.%s.broken.%s.cfg" % (GEN, mode, broken), "Consistent", timeout=300, workers=1)
         binary = vlib.build("root")
         gen = vectors(chk, wd, binary)
-        keyschedule(chk, wd, gen)
-        live(chk, wd, binary, gen)
+        for part in (lambda: keyschedule(chk, wd, gen), lambda: live(chk, wd, binary, gen)):
+            try:
+                part()
+            except vlib.Inconclusive as ex:
+                if not chk.violations:
+                    raise
+                chk.note("a later stage was inconclusive after violations had been established: %s" % str(ex)[:300])
         chk.level = "other"
         chk.coverage["explanation"] = (
             "layout oracle: the TLA+ modules Codec/CodecGen state the RFC byte layouts independently of the library; TLC "
